@@ -315,9 +315,33 @@ def struct_children(g, n_cp=None):
     return it
 
 
+def struct_tuple_bare_parent(g):
+    """Tuple struct with a bare #[parent] member: the Into impls use the post-init form (`let mut obj = ..; obj.N = ..;`), in which members that
+    carry an instruction have their own statement form."""
+    r = g.r
+    cps = r.sample(["A", "B", "m::C"], r.choice([1, 2]))
+    it = Item("struct", "S", shape="tuple")
+    it.attrs = g.trait_set(cps)
+    it.meta["cps"] = cps
+    nf = r.randint(2, 4)
+    pidx = r.randrange(nf)
+    for i in range(nf):
+        f = Field(None, r.choice(LEAF_TYPES))
+        if i == pidx:
+            f.ty = f"P{g.mark()}"
+            f.attrs.append(Instr("parent", "parent", container=None, fields=None))
+        elif g.chance(0.6):
+            k = g.mark()
+            f.attrs.append(Instr(r.choice(["map", "map", "into", "map_owned", "map_ref"]), "map", container=None, member=i, action=(f"~.k{k}()" if g.chance(0.5) else None), braced=g.chance(0.5)))
+        it.fields.append(f)
+    return it
+
+
 def struct_parents(g):
     """Struct holding nested values flattened into the counterpart via #[parent(..)] (README 'Parent instructions')."""
     r = g.r
+    if g.chance(0.15):
+        return struct_tuple_bare_parent(g)
     cps = r.sample(["A", "B", "G<i32>", "Q<'x, u8>"], r.choice([1, 2, 2]))
     shape = "named"
     it = Item("struct", "S", shape=shape)
